@@ -458,3 +458,45 @@ PROPS["C16"] = {
     "level_note": "native fuzz campaigns are not reproducible from a seed; a crasher is saved as a replay file and joins the corpus",
     "assumptions": ["body-file references are rewritten into a sandbox directory so the environment is not part of the input"],
 }
+
+# ---- sub-checks added after the first version of each check (appended to the evidence texts)
+_ADDED = {
+    "C02": " Added since: actions 'sleep' (virtual time passes) and 'completeerr' (the transport fails a request); a quarter of the "
+           "histories give the attacker DNSCaching(ttl) through a real *http.Transport; at the end of every history no goroutine may "
+           "still execute vegeta code (stack scan at quiescence); C02.stoprace: rounds of 2..16 truly parallel Stop calls on the real "
+           "scheduler; C02.pump: the CLI result pump (processAttack) driven through harness-owned result and signal channels.",
+    "C03": " Added since: actions 'sleep' (idle periods in virtual time, after which free capacity must still be used) and 'completeerr'.",
+    "C04": " Added since: scripted transport faults (connection errors never release an extra hit); C04.cli: the in-process attack "
+           "command against a slow local server - total hits <= workers x (duration/latency + 1) + 1, a bound scheduling noise cannot break.",
+    "C05": " Added since: a slow targeter (0..3 ms); C05.realtransport: the attacker's own *http.Transport with MaxConnections / "
+           "Connections / KeepAlive / HTTP2 against a local server - result end >= handler finish, latency >= service time (causal bounds).",
+    "C06": " Added since: HEAD-style responses (Content-Length announced, no body); C06.cli: the attack command end to end against a raw "
+           "TCP server with -chunked, -max-body, -redirects, -name.",
+    "C07": " Added since: C07.writer - streams produced by an independent writer of the documented layout (text columns quoted, LF/CRLF; "
+           "encoding/json objects) are read by vegeta's explicit and auto-detected decoders as the same results.",
+    "C08": " Added since: stale longer files at the output path of an encode step, a named pipe fed in odd chunks as first input; "
+           "C08.detectcmd: files from another producer (white space before JSON objects, every CSV field quoted) and files in no format "
+           "given to the encode command.",
+    "C09": " Added since: a failed Encode call in between (a result the JSON encoder rejects) must leave nothing in the stream; "
+           "C09.encodecmd: `vegeta encode` on an input file cut at a drawn offset yields exactly the complete records.",
+    "C10": " Added since: arbitrary uint16 status codes; C10.reportcmd: the report command (gob/csv/json file, incl. all-zero failed hits) "
+           "compared with a direct computation.",
+    "C11": " Added since: intermediate Close calls (periodic reporting) before the final one.",
+    "C12": " Added since: failed results with recurring error texts; C12.reportcmd: the report command with hist[...], -buckets (hist and "
+           "json) and both at once, compared with reference counts.",
+    "C13": " Added since: large first records, file names whose extension carries no or a misleading meaning, the JSON report compared "
+           "with a direct computation over the records (not only split vs union).",
+    "C14": " Added since: bodies and header values that make JSON lines exceed 4 KiB / 64 KiB; C14.cli: the attack command end to end "
+           "against a raw TCP server (both formats, lazy and eager, -header/-body defaults incl. quoted values, rates whose periods do not "
+           "divide the duration, target lists longer than the whole periods).",
+    "C15": " Added since: default headers built by append (spare capacity) sharing a key with the targets.",
+    "C16": " Added since: decoding every record into one reused Result; crafted corpus entries with a corrupted gob map count in a later record.",
+    "C17": " Added since: series longer than the plot command's default threshold (4100..5000 results) with -threshold 0/4000/4050.",
+    "C18": " Added since: per-execution host names; mixed-case unmapped host names and upper-case IPv6 literals (pass-through must be verbatim).",
+    "C19": " Added since: sequences of repeated -rate flags, mixed-case hosts in -connect-to, quoted -header values; C19.cli: -max-body "
+           "notations and the other flags through the attack command end to end.",
+    "C20": " Added since: label values whose plain concatenations coincide; C20.pump: results (incl. those without target, after a "
+           "signal, with network error texts) through the CLI result pump with a registered exporter.",
+}
+for _k, _v in _ADDED.items():
+    PROPS[_k]["rule"] += _v
